@@ -104,7 +104,8 @@ class Prop:
         coq_cases = [(c["id"], c["coq"]) for c in cases if c.get("coq")]
         if not self.check_mod or not coq_cases:
             return {"mismatches": [], "spec_failures": [], "errors": []}
-        return vlib.eval_cases(ctx.workdir, self.check_mod, coq_cases, shard=self.shard)
+        return vlib.eval_cases(ctx.workdir, self.check_mod, coq_cases, shard=self.shard,
+                               timeout=4800 if ctx.tier == "thorough" else 1200)
 
 
 def load_plugin(pid):
